@@ -484,6 +484,10 @@ def value_cells(item):
         if len(second_rows) != len(first_rows):
             problems.append('row count differs: %d vs %d' % (len(first_rows), len(second_rows)))
         for ri, (a, w, o) in enumerate(zip(first_rows, written, second_rows)):
+            if set(a.keys()) != set(o.keys()):
+                # a null is a value: the resumed row carries the same fields as the row of the first run (the next step reads row[field];
+                # the ORDER of the keys of a row means nothing)
+                problems.append('row %d: the resumed row carries the fields %s, the first run\'s row %s' % (ri, list(o.keys()), list(a.keys())))
             for name, _ in FIELDS:
                 for path, va, vw, vo in leaves(a.get(name), w.get(name), o.get(name), name):
                     if va is MISMATCH:
